@@ -43,6 +43,14 @@ func (f *Length) Call(s *slip.Scope, args slip.List, depth int) (result slip.Obj
 	switch ta := args[0].(type) {
 	case nil:
 		result = slip.Fixnum(0)
+	case slip.List:
+		// A dotted list is not a sequence, the tail is not an element.
+		if 0 < len(ta) {
+			if _, ok := ta[len(ta)-1].(slip.Tail); ok {
+				slip.TypePanic(s, depth, "sequence", ta, "proper sequence")
+			}
+		}
+		result = slip.Fixnum(len(ta))
 	case HasLength:
 		result = slip.Fixnum(ta.Length())
 	default:
